@@ -86,13 +86,9 @@ func postCloseChecks(e *env, c *websocket.Conn, alreadyReturned bool) string {
 			msg = "Write succeeded on a closed connection"
 			return
 		}
-		if w, err := c.Writer(ctx, websocket.MessageBinary); err == nil {
-			_, werr := w.Write([]byte("y"))
-			cerr := w.Close()
-			if werr == nil && cerr == nil {
-				msg = "Writer succeeded on a closed connection"
-				return
-			}
+		if _, err := c.Writer(ctx, websocket.MessageBinary); err == nil {
+			msg = "Writer succeeded on a closed connection"
+			return
 		}
 		if err := c.Ping(ctx); err == nil {
 			msg = "Ping succeeded on a closed connection"
@@ -249,7 +245,21 @@ func runC06Recv(t fataler, c c06Case) string {
 		p.send(ref.Frame{Fin: true, Opcode: ref.OpBinary, Payload: []byte("before close")})
 		wantMsgs = 1
 	}
-	p.send(ref.Frame{Fin: true, Opcode: ref.OpClose, Payload: payload})
+	// the Close frame may reach the library in one transport read, byte by byte, or
+	// split somewhere inside its payload (derived from the case, so replayable)
+	cf := p.prep(ref.Frame{Fin: true, Opcode: ref.OpClose, Payload: payload}).Encode()
+	switch (c.Code + c.ReasonLen) % 3 {
+	case 0:
+		p.sendRaw(cf)
+	case 1:
+		lc.End.SetPeerMaxRead(1)
+		p.sendRaw(cf)
+	default:
+		cut := len(cf) - len(payload)/2
+		p.sendRaw(cf[:cut])
+		synctest.Wait()
+		p.sendRaw(cf[cut:])
+	}
 	hangup := strings.HasSuffix(c.Timing, "-hangup")
 	if hangup {
 		// the peer does not wait for the echo: it hangs up at once, so the
